@@ -16,6 +16,9 @@ ModeEv(e) ==
 CrashEv(e) ==
   /\ Chk(e.prefix_ok, "crash_prefix")
   /\ Chk(e.file_len >= e.acked * e.unit, "crash_durable")
+  \* killed right after the consume of a work() call: everything fed so far has
+  \* been consumed, so all of it must be in the file already
+  /\ Chk((e.point = "sink_after_consume" /\ e.killed) => e.file_len >= e.fed * e.unit, "consumed_not_on_disk")
   /\ Chk(e.finished => e.file_len = e.total, "crash_complete")
 TraceNext ==
   /\ l <= Len(Rec)
